@@ -1,4 +1,116 @@
-import Nstd.Server.ModelC13
+import Nstd.Server.LemmasC13
+import Nstd.Server.TraceC13
+/-
+  C13 — property theorems.  `reach ops` is the state of the model after ANY history `ops`
+  (writes of any data with any send outcome, poll rounds reporting any subset of the ready
+  events with any send outcome, reads, peer sends/reads, suspend/resume — in any order).
+-/
 namespace Nstd.Server.C13
-theorem placeholder13 : init.backlog = [] := rfl
+
+/-- the state after an arbitrary history -/
+def reach (ops : List Op) : St := runOps init ops
+
+/-- the ghost field `accepted` is what the property calls "the concatenation, in call order, of the
+    data passed to Client::write calls that returned true" — computed here from the op list and
+    the results the model returned -/
+theorem accepted_is_data_of_true_writes (ops : List Op) :
+    (reach ops).accepted = writesTrue init ops := by
+  simpa [reach, init] using runOps_accepted init ops inv_init
+
+/-- the ghost field `received` is the concatenation of everything the peer's reads returned -/
+theorem received_is_data_of_peer_reads (ops : List Op) :
+    (reach ops).received = peerGot init ops := by
+  simpa [reach, init] using runOps_received init ops inv_init
+
+/-- the number of bytes handed to the OS is the sum of the counts returned by the intercepted sends -/
+theorem handed_is_sum_of_sends (ops : List Op) :
+    (reach ops).handed.length = sentCount init ops := by
+  simpa [reach, init] using runOps_handed init ops inv_init
+
+/-- stream_exact: bytes handed to the OS ++ backlog = concatenation of the data of all writes that
+    returned true, in call order (for a client that has not been closed and removed) -/
+theorem stream_exact (ops : List Op) (h : (reach ops).dead = false) :
+    (reach ops).handed ++ (reach ops).backlog = writesTrue init ops := by
+  rw [← accepted_is_data_of_true_writes]
+  exact (runOps_inv init ops inv_init).stream h
+
+/-- what the peer has received so far, followed by what is in flight and by the backlog, is exactly
+    the accepted data: nothing lost, duplicated or reordered -/
+theorem peer_stream_exact (ops : List Op) (h : (reach ops).dead = false) :
+    peerGot init ops ++ (reach ops).wire ++ (reach ops).backlog = writesTrue init ops := by
+  have hi := runOps_inv init ops inv_init
+  rw [← received_is_data_of_peer_reads, ← accepted_is_data_of_true_writes]
+  show ((runOps init ops).received ++ (runOps init ops).wire) ++ (runOps init ops).backlog = _
+  rw [hi.wire]
+  exact hi.stream h
+
+/-- also after the client was closed (its backlog is discarded with it): the peer never sees
+    anything but a prefix of the accepted data -/
+theorem peer_stream_prefix (ops : List Op) :
+    ∃ rest, peerGot init ops ++ rest = writesTrue init ops := by
+  have hi := runOps_inv init ops inv_init
+  obtain ⟨rest, hr⟩ := hi.pre
+  refine ⟨(reach ops).wire ++ rest, ?_⟩
+  rw [← received_is_data_of_peer_reads, ← accepted_is_data_of_true_writes, ← List.append_assoc]
+  show ((runOps init ops).received ++ (runOps init ops).wire) ++ rest = _
+  rw [hi.wire]; exact hr
+
+/-- postponed_is_backlog: a write that returns true reports the size of the backlog after it, which
+    is the number of accepted bytes not yet handed to the OS; a write that returns false reports 0 -/
+theorem postponed_is_backlog (ops : List Op) (d : List Nat) (o : Outcome) (s' : St) (out : Out)
+    (hst : step (reach ops) (.write d o) = some (s', out)) (ret : Bool) (p : Nat) (hres : out.res = .wrote ret p) :
+    (ret = true → p = s'.backlog.length ∧ p + s'.handed.length = s'.accepted.length) ∧
+    (ret = false → p = 0) := by
+  have hi := runOps_inv init ops inv_init
+  exact write_postponed (reach ops) d o s' out hi hst ret p hres
+
+/-- the send-buffer size observable (`getSendBufferSize`) of a live client -/
+theorem sendBufferSize_is_unsent (ops : List Op) (h : (reach ops).dead = false) :
+    (reach ops).backlog.length + sentCount init ops = (writesTrue init ops).length := by
+  rw [← stream_exact ops h, ← handed_is_sum_of_sends]; simp; omega
+
+/-- onWrite_iff_drained: a step delivers onWrite exactly when it takes a live client's backlog from
+    non-empty to empty (and the client stays alive), and then delivers it once -/
+theorem onWrite_iff_drained (ops : List Op) (op : Op) (s' : St) (out : Out)
+    (hd : (reach ops).dead = false) (hst : step (reach ops) op = some (s', out)) :
+    (Cb.onWrite ∈ out.cbs ↔ ((reach ops).backlog ≠ [] ∧ s'.backlog = [] ∧ s'.dead = false)) ∧
+    out.cbs.count Cb.onWrite ≤ 1 :=
+  step_onWrite (reach ops) op s' out (runOps_inv init ops inv_init) hd hst
+
+/-- interest_inv: the poll registration of a live client is (read unless suspended) + (write iff backlog) -/
+theorem interest_inv (ops : List Op) (h : (reach ops).dead = false) :
+    (reach ops).interest = some (!(reach ops).suspended, !(reach ops).backlog.isEmpty) :=
+  (runOps_inv init ops inv_init).interest h
+
+/-- suspended_no_read: no step from a state with a suspended client delivers onRead -/
+theorem suspended_no_read (ops : List Op) (op : Op) (s' : St) (out : Out)
+    (hs : (reach ops).suspended = true) (hst : step (reach ops) op = some (s', out)) :
+    Cb.onRead ∉ out.cbs :=
+  step_no_read (reach ops) op s' out (runOps_inv init ops inv_init) hs hst
+
+/-- the backlog drains: when the kernel reports the client writable and accepts everything, one poll
+    round empties the backlog and delivers onWrite (unless a read event is dispatched first) -/
+theorem ready_all_drains (ops : List Op) (h : (reach ops).dead = false) (hc : (reach ops).closing = false)
+    (hb : (reach ops).backlog ≠ []) :
+    ∃ s' out, step (reach ops) (.ready false true .all) = some (s', out) ∧ s'.backlog = [] ∧
+      out.cbs = [Cb.onWrite] ∧ s'.handed = (reach ops).handed ++ (reach ops).backlog :=
+  ready_drains (reach ops) (runOps_inv init ops inv_init) h hc hb
+
+/-! non-vacuity: concrete histories reach the situations the theorems talk about -/
+
+def exOps : List Op :=
+  [.write [1, 2, 3, 4, 5] (.cnt 2), .write [6, 7] .all, .ready false true .half, .peerread, .suspend]
+
+example : (reach exOps).dead = false ∧ (reach exOps).backlog = [5, 6, 7] ∧ (reach exOps).suspended = true ∧
+    writesTrue init exOps = [1, 2, 3, 4, 5, 6, 7] ∧ peerGot init exOps = [1, 2, 3, 4] ∧ sentCount init exOps = 4 := by
+  decide
+
+example : ∃ s' out, step (reach exOps) (.write [8] .wb) = some (s', out) ∧ out.res = .wrote true 4 := by
+  refine ⟨_, _, rfl, ?_⟩; decide
+
+example : ∃ s' out, step (reach exOps) (.ready true true .all) = some (s', out) ∧ Cb.onWrite ∈ out.cbs := by
+  refine ⟨_, _, rfl, ?_⟩; decide
+
+example : (reach [.write [1] .err, .write [2, 3] .wb, .ready true true .all]).dead = true := by decide
+
 end Nstd.Server.C13
